@@ -247,6 +247,12 @@ func (c *TermCtx) build(v ssa.Value) *Term {
 				if sv := singleAssigned(a); sv != nil {
 					return c.Of(sv)
 				}
+				// a cell written earlier in the same block (a result spilled around deferred calls: `*r = e; rundefers;
+				// t = *r; return t`): the value stored last before this load — the cell is local and only stored to and
+				// loaded from, so nothing in between can change it
+				if sv := sameBlockStore(a, v); sv != nil {
+					return c.Of(sv)
+				}
 			}
 			if fv, ok := v.X.(*ssa.FreeVar); ok {
 				if t := outerParamOf(fv); t != nil {
@@ -476,9 +482,17 @@ func (c *TermCtx) tryInline(f *ssa.Function, args []*Term) *Term {
 				}
 			}
 			return nil
-		case *ssa.MapUpdate, *ssa.Send, *ssa.Go, *ssa.Defer, *ssa.Panic, *ssa.RunDefers:
+		case *ssa.Defer:
+			if !isSyncCall(in.Common()) {
+				return nil
+			}
+		case *ssa.RunDefers:
+		case *ssa.MapUpdate, *ssa.Send, *ssa.Go, *ssa.Panic:
 			return nil
 		case *ssa.Call:
+			if isSyncCall(in.Common()) {
+				continue
+			}
 			// only pure, inlinable or library-pure calls
 			if fn, ok := in.Common().Value.(*ssa.Function); ok {
 				if !inModule(fn) && !pureLibrary(fn) {
@@ -1008,4 +1022,79 @@ func libName(f *ssa.Function) string {
 		}
 	}
 	return path + "." + name
+}
+
+
+// isSyncCall: a Lock / Unlock / RLock / RUnlock (…) of a sync.Mutex or sync.RWMutex. Mutual exclusion changes nothing
+// any property speaks of (none quantifies over concurrent use): such calls — also deferred — are no effects, a mutex
+// field carries no state, and a function whose only defers are unlocks is executed like one without.
+func isSyncCall(com *ssa.CallCommon) bool {
+	cal := com.StaticCallee()
+	if cal == nil || cal.Pkg == nil || cal.Pkg.Pkg.Path() != "sync" || cal.Signature.Recv() == nil {
+		return false
+	}
+	t := cal.Signature.Recv().Type()
+	if p, ok := t.(*types.Pointer); ok {
+		t = p.Elem()
+	}
+	n, ok := t.(*types.Named)
+	if !ok {
+		return false
+	}
+	switch n.Obj().Name() {
+	case "Mutex", "RWMutex":
+		return true
+	}
+	return false
+}
+
+// onlySyncDefers: every defer of f is a sync unlock (and f does not recover).
+func onlySyncDefers(f *ssa.Function) bool {
+	for _, b := range f.Blocks {
+		for _, in := range b.Instrs {
+			switch in := in.(type) {
+			case *ssa.Defer:
+				if !isSyncCall(in.Common()) {
+					return false
+				}
+			case *ssa.Go, *ssa.Select:
+				return false
+			}
+		}
+	}
+	return f.Recover == nil
+}
+
+
+// sameBlockStore: the value of the last store to the local cell a that precedes the load ld in ld's block, provided a
+// is only ever stored to and loaded from directly.
+func sameBlockStore(a *ssa.Alloc, ld *ssa.UnOp) ssa.Value {
+	if a.Referrers() == nil {
+		return nil
+	}
+	for _, r := range *a.Referrers() {
+		switch r := r.(type) {
+		case *ssa.Store:
+			if r.Addr != ssa.Value(a) {
+				return nil
+			}
+		case *ssa.UnOp:
+			if r.Op != token.MUL {
+				return nil
+			}
+		case *ssa.DebugRef:
+		default:
+			return nil
+		}
+	}
+	var last ssa.Value
+	for _, in := range ld.Block().Instrs {
+		if in == ssa.Instruction(ld) {
+			return last
+		}
+		if st, ok := in.(*ssa.Store); ok && st.Addr == ssa.Value(a) {
+			last = st.Val
+		}
+	}
+	return nil
 }
